@@ -54,6 +54,8 @@ def gen(rng, tier):
         c['drop_line'] = False
         c['midswap'] = [1, 2]
         out.append(c)
+    for _ in range(2 if tier == 'quick' else 20):
+        out.append(_groups_spec(rng))
     c = B.gen(rng)
     c['nt'] = 2
     c['tperm'] = [0, 1]
@@ -169,9 +171,73 @@ def _oracle_midswap(case, res):
     return None
 
 
+def _groups_spec(rng):
+    """an emission category (offset 1000) whose tracer 1 has the short name of concentration tracer 1 (real tables name tracer
+    1 and 1001 alike), and a category that no table lists but whose name begins like the listed emission category"""
+    c = B.gen(rng)
+    nx, ny = c['nx'], c['ny']
+    blocks = [dict(cat='IJ-AVG-$', off=0, tid=1, name='NOx', scale=1e9, unit='ppbv', nz=2, start=[1, 1, 1]),
+              dict(cat='ANTHSRCE', off=1000, tid=1, name='NOx', scale=2.0, unit='kg/s', nz=1, start=[1, 1, 1]),
+              # not listed in diaginfo.dat: offset 0, so tracer 2 is line 2 of the table (Ox, 1e9, ppbv)
+              dict(cat='ANTHSRCE-AD', off=0, tid=2, name='Ox', scale=1e9, unit='ppbv', nz=1, start=[1, 1, 1], unlisted_cat=True)]
+    c.update(nt=1, tperm=[0], blocks=blocks, start=[1, 1, 1], unit_in_file=True, groups=True, drop_line=False,
+             data=[[[camx.f32bits(float(rng.randint(1, 9))) for _ in range(nx * ny * b['nz'])] for b in blocks]])
+    return c
+
+
+def _impl_groups(case):
+    from PseudoNetCDF.geoschemfiles._bpch import bpch1
+    d = tempfile.mkdtemp(prefix='c18g_', dir=camx.tmpdir())
+    try:
+        with lib.pnc_warnings(), contextlib.redirect_stdout(io.StringIO()):
+            p = os.path.join(d, 'a.bpch')
+            open(p, 'wb').write(B.encode(case))
+            B.tables(case, d)
+            # the emission category and its tracers 1, 2 are added to the tables; ANTHSRCE-AD is not
+            with open(os.path.join(d, 'tracerinfo.dat'), 'a') as fh:
+                for tid, name, scale, unit in ((1001, 'NOx', 2.0, 'kg/s'), (1002, 'SOx', 3.0, 'kg/s')):
+                    fh.write('%-8s %-30s%10.3e%3d%9d%10.3e %s\n' % (name, name + ' tracer', 12e-3, 1, tid, scale, unit))
+            with open(os.path.join(d, 'diaginfo.dat'), 'a') as fh:
+                fh.write('%8d %-40s %s\n' % (1000, 'ANTHSRCE', 'category ANTHSRCE'))
+            out = {}
+            for tag, kw in (('nogroup_list', dict(nogroup=['ANTHSRCE'])), ('grouped', dict())):
+                f = bpch1(p, **kw)
+                g = f.groups['IJ-AVG-$'].variables['NOx']
+                ad = f.variables['ANTHSRCE-AD_Ox'] if 'ANTHSRCE-AD_Ox' in f.variables else None
+                out[tag] = dict(keys=sorted(k for k in f.variables if 'NOx' in k or 'ANTHSRCE' in k),
+                                conc=np.asarray(g[...], dtype='d').ravel().tolist(), conc_unit=str(getattr(g, 'units', '')).strip(),
+                                ad=None if ad is None else np.asarray(ad[...], dtype='d').ravel().tolist(),
+                                ad_unit=None if ad is None else str(getattr(ad, 'units', '')).strip())
+            return dict(groups=out)
+    except lib.HarnessError:
+        raise
+    except Exception as e:
+        return dict(err=type(e).__name__, msg=str(e)[:100])
+    finally:
+        shutil.rmtree(d, True)
+
+
+def _oracle_groups(case, res):
+    if 'err' in res:
+        return 'reading a file with an emission category next to the concentrations raised %s %s' % (res['err'], res.get('msg'))
+    raw = [[camx.bits_f32(w) for w in blk] for blk in case['data'][0]]
+    for tag, v in res['groups'].items():
+        want = [float(np.float32(x) * np.float32(1e9)) for x in raw[0]]
+        if len(v['conc']) != len(want) or any(abs(a - b) > 1e-6 * abs(b) for a, b in zip(v['conc'], want)) or v['conc_unit'] != 'ppbv':
+            return "%s: groups['IJ-AVG-$'].variables['NOx'] presents %s [%s], the concentration blocks hold raw x 1e9 = %s [ppbv] (variables %s)" % (
+                tag, v['conc'][:3], v['conc_unit'], want[:3], v['keys'])
+        wad = [float(np.float32(x) * np.float32(1e9)) for x in raw[2]]
+        if v['ad'] is None or any(abs(a - b) > 1e-6 * abs(b) for a, b in zip(v['ad'], wad)) or v['ad_unit'] != 'ppbv':
+            return "%s: tracer 2 of the category ANTHSRCE-AD (in no table: offset 0, line 2 of the tracer table = Ox, 1e9, ppbv) is presented as %s [%s] under %s" % (
+                tag, v['ad'] and v['ad'][:3], v['ad_unit'], v['keys'])
+    return None
+
+
 def impl(case):
     if case.get('midswap'):
         return _impl_midswap(case)
+    if case.get('groups'):
+        return _impl_groups(case)
     from PseudoNetCDF.geoschemfiles._bpch import bpch1, ncf2bpch
     from PseudoNetCDF.geoschemfiles._newbpch import bpch2
     d = tempfile.mkdtemp(prefix='c18_', dir=camx.tmpdir())
@@ -336,7 +402,7 @@ def _tinfo(case):
 
 
 def to_line(case, res):
-    if case.get('midswap'):
+    if case.get('midswap') or case.get('groups'):
         return 'c18 dec %s' % B.encode(case).hex()
     return 'c18 dec %s' % res['hex']
 
@@ -349,6 +415,8 @@ def _model_extra(case, res):
 
 
 def agree(case, out, res):
+    if case.get('groups'):
+        return None         # the group front end and categories outside the tables: oracle only
     if case.get('midswap'):
         return None         # the grouping of the Lean decoder is that of the memory-mapped reader (repeat_breaks_grouping): oracle only
     enc, reso = _model_extra(case, res)
@@ -377,6 +445,8 @@ def agree(case, out, res):
 
 
 def oracle(case, res):
+    if case.get('groups'):
+        return _oracle_groups(case, res)
     if case.get('midswap'):
         return _oracle_midswap(case, res)
     if 'err' in res:
@@ -503,6 +573,8 @@ def classify(case, failure, model_out):
 
 
 def nontrivial(case, res):
+    if case.get('groups'):
+        return 'groups' in res
     if case.get('midswap'):
         return 'err' not in res.get('front', {})
     return 'err' not in res and case['nt'] >= 2 and len({b['nz'] for b in case['blocks']}) >= 2
